@@ -18,6 +18,9 @@ CLAIMED = {
  "C05": ("must-precede / must-follow ordering on SSA CFGs, guard-dominance, fsync must-pass-through over the resolved call chain, single-batch writer discipline, publish-last ordering over the VTA call tree (writer order vs the recovery reader's dereference chain)",
          "Decides the write-ahead, fsync-before-act, save→end-marker→apply and atomic-batch shapes on every path, the catch-up replay guards, and whether every record recovery dereferences from the head height is written before the head marker (flags the consensus-state record as an open finding). Does not decide post-crash store consistency or double-sign freedom over crash points.",
          "DESIGN.md §4 C05"),
+ "C08": ("effect analysis (field mutation sets through callees and map/slice parameters) comparing what each journalling operation changes with what the appended entry's revert writes; def-before-mutation ordering of recorded previous values; who-may-write classification of every writer of journalled fields; operand tables of the revert methods; guard/ordering rules of the undo loop and revision stack; alias check of Copy/deepCopy",
+         "Decides the structural necessary conditions of exact revert: every change made by a journalling operation is in the write set of the entry it appends, previous values are captured before being overwritten and handed to the matching setter, journalled fields have no writer outside reverts, journalling operations, their setters and a frozen lifecycle table, the undo loop runs newest-first down to and including the snapshot index with symmetric dirty counting, the revision stack is truncated, and copies share no mutable container. Does not decide equality of reverted observables over all histories, root equality with a fresh replay, or trie/snapshot read-back.",
+         "DESIGN.md §4 C08"),
  "C09": ("guard-dominance on pre-checks, acquire/release pairing of the block gas pool over all exits, once-per-path nonce increment, snapshot/revert pairing in call frames, operand-shape checks of refund/fee/transfer arithmetic",
          "Decides that gas is bought only behind nonce/balance/pool checks for gas*price, that every exit after the purchase returns the remainder to the pool (three early error returns are open findings), one nonce bump per executed path, the min(gasUsed/2, refund) shape, fee after refund on gasUsed*price, snapshot-before-mutation and revert-on-error in all five frame functions, and revert-and-skip of failing transactions in block commit. Does not decide the balance-sum equation over arbitrary bytecode.",
          "DESIGN.md §4 C09"),
